@@ -5,6 +5,7 @@ import (
 	"encoding/json"
 	"fmt"
 	"net"
+	"strings"
 	"sync"
 	"time"
 )
@@ -301,6 +302,9 @@ func (da *DistributedAllocator) Renew(ctx context.Context, subscriberID string) 
 		return err
 	}
 
+	// The record is written back under the caller's subscriber ID: the copy inside the JSON
+	// value is not byte-exact for IDs that are not valid UTF-8
+	alloc.SubscriberID = subscriberID
 	alloc.Epoch = da.epochAllocator.GetCurrentEpoch()
 	return da.saveAllocation(ctx, alloc)
 }
@@ -437,7 +441,7 @@ func (da *DistributedAllocator) cleanupExpiredFromStore(ctx context.Context, cur
 
 		if alloc.Epoch < threshold {
 			// Remove from store (local allocator already handles this lazily)
-			da.store.Delete(ctx, da.allocationKey(alloc.SubscriberID))
+			da.store.Delete(ctx, kv.Key)
 		}
 	}
 }
@@ -518,20 +522,24 @@ func (da *DistributedAllocator) loadAllocations(ctx context.Context) error {
 			continue
 		}
 
+		// The subscriber is the one the record is stored under: the key is byte-exact, the
+		// copy inside the JSON value is not (encoding/json rewrites invalid UTF-8)
+		subscriberID := strings.TrimPrefix(kv.Key, da.keyPrefix())
+
 		if da.mode == PoolModeLease {
 			// For lease mode, check if allocation is still valid
 			currentEpoch := da.epochAllocator.GetCurrentEpoch()
 			if currentEpoch >= 2 && alloc.Epoch < currentEpoch-2 {
 				// Expired - skip loading and clean up from store
-				da.store.Delete(ctx, da.allocationKey(alloc.SubscriberID))
+				da.store.Delete(ctx, kv.Key)
 				continue
 			}
 
 			// Allocate in epoch allocator (will set correct generation)
-			da.epochAllocator.Allocate(ctx, alloc.SubscriberID)
+			da.epochAllocator.Allocate(ctx, subscriberID)
 		} else {
 			// Session mode: set allocation directly from store
-			if err := da.allocator.SetAllocation(alloc.SubscriberID, prefix); err != nil {
+			if err := da.allocator.SetAllocation(subscriberID, prefix); err != nil {
 				// Log but continue - might be a conflict
 				continue
 			}
@@ -578,21 +586,21 @@ func (da *DistributedAllocator) handleRemoteChange(key string, value []byte, del
 		}
 
 		// Check if we already have this allocation
-		if existing := da.epochAllocator.Lookup(alloc.SubscriberID); existing != nil {
+		if existing := da.epochAllocator.Lookup(subscriberID); existing != nil {
 			return // Already in sync
 		}
 
 		// Allocate in epoch allocator
-		da.epochAllocator.Allocate(context.Background(), alloc.SubscriberID)
+		da.epochAllocator.Allocate(context.Background(), subscriberID)
 	} else {
 		// Session mode: check if we already have this allocation
-		if existing := da.allocator.Lookup(alloc.SubscriberID); existing != nil {
+		if existing := da.allocator.Lookup(subscriberID); existing != nil {
 			if existing.String() == prefix.String() {
 				return // Already in sync
 			}
 		}
 
 		// Apply remote allocation
-		da.allocator.SetAllocation(alloc.SubscriberID, prefix)
+		da.allocator.SetAllocation(subscriberID, prefix)
 	}
 }
